@@ -215,12 +215,8 @@ func (h *Handler) commit() error {
 			h.tempFile.fp = nil
 		}
 
-		if Exists(h.path) {
-			if err := os.Remove(h.path); err != nil {
-				return err
-			}
-		}
-
+		// os.Rename replaces an existing file atomically; removing the table first would leave a
+		// window in which a crash loses it and other processes do not find it
 		if err := os.Rename(h.tempFile.path, h.path); err != nil {
 			return err
 		}
